@@ -136,6 +136,77 @@ def _index_range(it, st, args, ctx):
     return outs
 
 
+def _bound_alternatives(t, n):
+    t = simp(t)
+    if z3.is_bv_value(t):
+        return [(z3.BoolVal(True), t.as_long())]
+    alts = [(t == bv(k, t.size()), k) for k in range(0, n + 1)]
+    alts.append((z3.UGT(t, bv(n, t.size())), n + 1))
+    return alts
+
+
+@summary(r'^core::slice::<impl \[.*\]>::split_at(_mut|_checked)?$|^Vec::<.*>::split_at(_mut)?$')
+def _split_at(it, st, args, ctx):
+    ptr, s = seq_of(it, st, args[0])
+    n = len(s.fields)
+    if ptr is None:
+        ptr = Ptr(st.alloc(s))
+    checked = ctx.callee.endswith('_checked')
+    outs = []
+    for c, mid in _bound_alternatives(args[1], n):
+        c = simp(c)
+        if z3.is_false(c) or not it.feasible(st, c):
+            continue
+        s2 = st if z3.is_true(c) else st.fork()
+        s2.assume(c)
+        if mid > n:
+            outs.append((s2, Ret(mk_none()) if checked else Panic('mid > len', ctx.fn.name)))
+        else:
+            pair = Agg('tuple', [Ptr(ptr.cell, ptr.path + (('sub', 0, n - mid, True),)), Ptr(ptr.cell, ptr.path + (('sub', mid, 0, True),))])
+            outs.append((s2, Ret(mk_some(pair) if checked else pair)))
+    return outs
+
+
+@summary(r'^core::slice::<impl \[.*\]>::split_last$')
+def _split_last(it, st, args, ctx):
+    ptr, s = seq_of(it, st, args[0])
+    n = len(s.fields)
+    if not n:
+        return mk_none()
+    if ptr is None:
+        ptr = Ptr(st.alloc(s))
+    return mk_some(Agg('tuple', [Ptr(ptr.cell, ptr.path + (('i', n - 1),)), Ptr(ptr.cell, ptr.path + (('sub', 0, 1, True),))]))
+
+
+@summary(r'^core::slice::<impl \[.*\]>::get::<(std::ops::)?Range(To|From)?<usize>>$')
+def _slice_get_range(it, st, args, ctx):
+    ptr, s = seq_of(it, st, args[0])
+    r = args[1]
+    n = len(s.fields)
+    if ptr is None:
+        ptr = Ptr(st.alloc(s))
+    kind = re.search(r'<(?:std::ops::)?(Range\w*)<usize>>', ctx.callee).group(1)
+    if kind == 'RangeTo':
+        la, lb = [(z3.BoolVal(True), 0)], _bound_alternatives(r.fields[0], n)
+    elif kind == 'RangeFrom':
+        la, lb = _bound_alternatives(r.fields[0], n), [(z3.BoolVal(True), n)]
+    else:
+        la, lb = _bound_alternatives(r.fields[0], n), _bound_alternatives(r.fields[1], n)
+    outs = []
+    for ca, a in la:
+        for cb, b in lb:
+            c = simp(z3.And(ca, cb))
+            if z3.is_false(c) or not it.feasible(st, c):
+                continue
+            s2 = st if z3.is_true(c) else st.fork()
+            s2.assume(c)
+            if a > b or b > n:
+                outs.append((s2, Ret(mk_none())))
+            else:
+                outs.append((s2, Ret(mk_some(Ptr(ptr.cell, ptr.path + (('sub', a, n - b, True),))))))
+    return outs
+
+
 # ---- ethnum::U256 = BV256 ------------------------------------------------------------------------------------
 
 def _u256(rx):
